@@ -103,7 +103,7 @@ def get_widths2(seq: Iterable[object]) -> Dict[int, Tuple[float, Point]]:
             if r:
                 char1 = r[-1]
                 for i, (w, vx, vy) in enumerate(choplist(3, v)):
-                    if not all(isinstance(n, (int, float)) for n in (w, vx, vy)):
+                    if not all(safe_float(n) is not None for n in (w, vx, vy)):
                         log.warning(
                             f"Skipping invalid vertical metrics {(w, vx, vy)!r}"
                         )
@@ -114,7 +114,9 @@ def get_widths2(seq: Iterable[object]) -> Dict[int, Tuple[float, Point]]:
             r.append(v)
             if len(r) == 5:
                 (char1, char2, w, vx, vy) = r
-                if isinstance(char1, int) and isinstance(char2, int):
+                if not all(safe_float(n) is not None for n in (w, vx, vy)):
+                    log.warning(f"Skipping invalid vertical metrics {(w, vx, vy)!r}")
+                elif isinstance(char1, int) and isinstance(char2, int):
                     for i in range(max(char1, 0), min(char2, MAX_CID) + 1):
                         widths[i] = (w, (vx, vy))
                 else:
